@@ -1462,3 +1462,117 @@ func continuationOf(f *Func, st ast.Stmt) []ast.Stmt {
 	}
 	return out
 }
+
+// ---- the page decoder accepts every cell the encoder can produce -----------------------------------------------------
+
+func ruleDecoderAcceptsMaxCell(c *Ctx, rule string) {
+	c.Rule(rule, "the page decoder accepts every cell the write path can produce: a test in decodeLeaf that refuses a cell because of its size does not fire for a value of maxValueSize bytes (the condition is evaluated with valueSize = maxValueSize, every other operand being a constant) — a sanity bound that is two bytes too tight makes the page of a maximal row, and every scan through it, unreadable after a restart or an eviction")
+	f := c.NeedFunc(rule, "storage.(*btreeNode).decodeLeaf")
+	if f == nil {
+		return
+	}
+	maxV := int64(-1)
+	if obj, ok := f.Pkg.Types.Scope().Lookup("maxValueSize").(*types.Const); ok {
+		if n, ok := constantInt(obj.Val()); ok {
+			maxV = n
+		}
+	}
+	if maxV < 0 {
+		c.Undecided(rule, f.Name+"|maxValueSize", "constant maxValueSize not found")
+		return
+	}
+	var eval func(e ast.Expr, depth int) (int64, bool, bool) // value, known, mentions valueSize
+	eval = func(e ast.Expr, depth int) (int64, bool, bool) {
+		e = ast.Unparen(f.stripConv(e))
+		if depth > 6 {
+			return 0, false, false
+		}
+		if cv := f.constOf(e); cv != nil {
+			n, ok := constantInt(cv)
+			return n, ok, false
+		}
+		switch x := e.(type) {
+		case *ast.SelectorExpr:
+			if x.Sel.Name == "valueSize" {
+				return maxV, true, true
+			}
+		case *ast.CallExpr:
+			// len(value bytes) is the value size as well
+			if id, ok := x.Fun.(*ast.Ident); ok && id.Name == "len" && len(x.Args) == 1 && strings.HasSuffix(exprKey(x.Args[0]), "valueBytes") {
+				return maxV, true, true
+			}
+		case *ast.Ident:
+			if rhs, _, ok := f.definedBy(f.Decl.Body, f.ObjOf(x)); ok && rhs != nil {
+				return eval(rhs, depth+1)
+			}
+		case *ast.BinaryExpr:
+			a, ok1, m1 := eval(x.X, depth+1)
+			b, ok2, m2 := eval(x.Y, depth+1)
+			if !ok1 || !ok2 {
+				return 0, false, m1 || m2
+			}
+			switch x.Op {
+			case token.ADD:
+				return a + b, true, m1 || m2
+			case token.SUB:
+				return a - b, true, m1 || m2
+			case token.MUL:
+				return a * b, true, m1 || m2
+			}
+		}
+		return 0, false, false
+	}
+	n := 0
+	ast.Inspect(f.Decl.Body, func(x ast.Node) bool {
+		ifs, ok := x.(*ast.IfStmt)
+		if !ok || !terminates(ifs.Body.List) {
+			return true
+		}
+		// the branch must refuse: it returns an error
+		refuses := false
+		for _, st := range ifs.Body.List {
+			if r, ok := st.(*ast.ReturnStmt); ok && len(r.Results) > 0 && !isNilIdent(f, ast.Unparen(r.Results[len(r.Results)-1])) {
+				refuses = true
+			}
+		}
+		be, ok := ast.Unparen(ifs.Cond).(*ast.BinaryExpr)
+		if !refuses || !ok {
+			return true
+		}
+		a, ok1, m1 := eval(be.X, 0)
+		b, ok2, m2 := eval(be.Y, 0)
+		if !(m1 || m2) {
+			return true
+		}
+		n++
+		key := f.Name + "|size-refusal#" + itoa(n)
+		if !ok1 || !ok2 {
+			c.Undecided(rule, key, "the size test %s could not be evaluated", exprKey(ifs.Cond))
+			return true
+		}
+		fires := false
+		switch be.Op {
+		case token.GTR:
+			fires = a > b
+		case token.GEQ:
+			fires = a >= b
+		case token.LSS:
+			fires = a < b
+		case token.LEQ:
+			fires = a <= b
+		case token.NEQ:
+			fires = a != b
+		case token.EQL:
+			fires = a == b
+		}
+		if fires {
+			c.FailConfined(rule, key, ifs.Pos(), "decodeLeaf refuses a cell whose value has the maximum legal size: with valueSize = maxValueSize = %d the test %s is %d %s %d, which holds — rows of that size are accepted by INSERT and their page cannot be read back", maxV, exprKey(ifs.Cond), a, be.Op, b)
+		} else {
+			c.OK(rule, key, ifs.Pos(), 1, "does not fire for valueSize = maxValueSize (%d %s %d)", a, be.Op, b)
+		}
+		return true
+	})
+	if n == 0 {
+		c.OK(rule, f.Name+"|size-refusal|none", f.Decl.Pos(), 1, "decodeLeaf refuses no cell because of its size")
+	}
+}
